@@ -85,6 +85,12 @@ type FloodConfig struct {
 	// Commands with timestamps outside +/- this window are rejected.
 	// Default is 5 minutes.
 	TimestampWindow time.Duration
+
+	// MaxHops is the maximum number of hops a route advertisement may travel
+	// from its origin (routing.max_hops). An advertisement whose path is
+	// longer is neither stored nor forwarded, and no advertisement is sent
+	// with a path longer than this. Zero means no limit.
+	MaxHops int
 }
 
 // DefaultFloodConfig returns sensible defaults.
@@ -260,6 +266,13 @@ func (f *Flooder) HandleRouteAdvertise(
 		}
 	}
 
+	// Hop limit: len(path) is the number of hops this advertisement has
+	// travelled from its origin. Beyond routing.max_hops it is neither stored
+	// nor forwarded.
+	if f.cfg.MaxHops > 0 && len(path) > f.cfg.MaxHops {
+		return false
+	}
+
 	// Convert protocol routes to routing entries (CIDR, domain, forward, and agent)
 	cidrEntries := make([]routing.RouteEntry, 0, len(routes))
 	domainEntries := make([]routing.DomainRouteEntry, 0)
@@ -317,6 +330,11 @@ func (f *Flooder) HandleRouteAdvertise(
 	// Process forward routes in routing manager
 	if len(forwardEntries) > 0 {
 		f.routeMgr.ProcessForwardRouteAdvertise(fromPeer, originAgent, sequence, forwardEntries, path, encPath)
+	}
+
+	// Hop limit: the next agent would be one hop further than we are.
+	if f.cfg.MaxHops > 0 && len(path) >= f.cfg.MaxHops {
+		return true
 	}
 
 	// Flood to other peers (forward encrypted path as-is).
@@ -814,6 +832,11 @@ func (f *Flooder) SendFullTable(peerID identity.AgentID) {
 		// replaying agent in seen-by, an agent on the path would forward the
 		// advertisement again with its own ID prepended a second time.
 		if containsAgent(path, peerID) {
+			continue
+		}
+
+		// Hop limit: the peer would be len(path) hops from the origin.
+		if f.cfg.MaxHops > 0 && len(path) > f.cfg.MaxHops {
 			continue
 		}
 
